@@ -23,6 +23,8 @@ mod c17;
 mod c18;
 mod c19;
 mod c20;
+mod mac;
+mod macgen;
 mod util;
 
 fn eval(op: &str) -> String {
